@@ -642,8 +642,10 @@ def sc_ws(rng):
                 data = ws_frame(rng, m, opcode=rng.choice([0, 1, 9, 10, 3, 15]))
             elif k < 0.93:
                 data = ws_frame(rng, m, masked=False)
-            else:
+            elif k < 0.97:
                 data = ws_frame(rng, b"", opcode=8)
+            else:
+                data = ws_frame(rng, b"p" * rng.choice([126, 3000]), opcode=rng.choice([9, 10, 8]))
             s.send(i, data)
             if rng.random() < 0.3:
                 s.tick()
@@ -665,6 +667,172 @@ def sc_copyrects(rng):
     s.tick()
     s.lines.append("end")
     return s
+
+
+# ----------------------------------------------------------------------------- deterministic core
+# Run in EVERY quick/thorough run, independent of the seed: each guard at limit-1 / limit / limit+1,
+# the request-rectangle boundary grid followed by an update so that the encoder really runs.
+CORE_CFGS = [
+    {"w": 64, "h": 48, "bpp": 4, "pw": 0, "ft": 1, "tight": 1, "xvp": 1, "utf8": 1, "sdh": 1, "wait": 7000, "wenc": 0, "view": 0},
+    {"w": 40, "h": 8, "bpp": 2, "pw": 1, "ft": 0, "tight": 0, "xvp": 0, "utf8": 0, "sdh": 0, "wait": 20000, "wenc": 5, "view": 0},
+]
+
+
+def axis_values(size):
+    pos = [0, 1, size - 1, size, size + 1, 65535]
+    out = []
+    for p in pos:
+        for l in [0, 1, size - p, size - p + 1, 65535 - p, 65536 - p, 65535]:
+            if 0 <= l <= 65535 and (p, l) not in out:
+                out.append((p, l))
+    return out
+
+
+def core_rect(cfg, enc):
+    """FramebufferUpdateRequest boundary grid: x,w over the grid with the full height, y,h over the
+    grid with the full width, the corner combinations, incremental and not; every request is
+    followed by an update (the application draws, the witness and the hostile client are served)"""
+    import random
+    rng = random.Random(4004)
+    s = Script(rng, dict(cfg))
+    W, H = cfg["w"], cfg["h"]
+    i = s.handshake()
+    s.send(i, m_setenc([enc, E_COPY]) + m_fbur(0, 0, 0, W, H))
+    s.tick()
+    rects = [(x, 0, w, H) for x, w in axis_values(W)] + [(0, y, W, h) for y, h in axis_values(H)]
+    rects += [(x, y, w, h) for (x, w) in [(8, 65530), (W - 1, 65535), (1, 65535), (W, 65535)]
+              for (y, h) in [(8 % H, 65536 - 8 % H), (H - 1, 65535), (1, 65535), (H, 65535)]]
+    k = 0
+    for incr in (0, 1):
+        for (x, y, w, h) in rects:
+            s.tag("core-rect")
+            s.send(i, m_fbur(incr, x, y, w, h))
+            k += 1
+            if incr or k % 4 == 0:
+                s.tick()
+    s.tick()
+    s.lines.append("end")
+    return s
+
+
+def core_guards(cfg):
+    """every length / count / value guard at limit-1, limit, limit+1 (full payload where the
+    message is accepted), each on its own connection, followed by a key event"""
+    import random
+    rng = random.Random(4005)
+    s = Script(rng, dict(cfg))
+    W, H = cfg["w"], cfg["h"]
+    M = 1 << 20
+    cases = []
+    for L in (M - 1, M):
+        cases.append(("cut", m_cut(L, b"a" * L), False))
+    cases.append(("cut", m_cut(M + 1, b"a" * 16), False))
+    cases.append(("cut", m_cut(0, b""), False))
+    for L in (M - 1, M):      # extended format (negative length), flags word = Request
+        cases.append(("cutext", m_cut((-L) & 0xFFFFFFFF, u32(1 << 25) + b"\0" * (L - 4)), True))
+    cases.append(("cutext", m_cut((-(M + 1)) & 0xFFFFFFFF, u32(1 << 25)), True))
+    for L in (3, 4):
+        cases.append(("cutext", m_cut((-L) & 0xFFFFFFFF, u32(1 << 25)[:L]), True))
+    for L in (1, 4094, 4095):
+        cases.append(("chat", m_chat(L, b"c" * L), False))
+    for L in (0, 4096, 4097, 0xFFFFFFFC, 0xFFFFFFFD, 0xFFFFFFFE, 0xFFFFFFFF):
+        cases.append(("chat", m_chat(L, b"c" * 8), False))
+    for n in (0, 1, 254, 255):
+        cases.append(("sds", m_sds(W, H, n, screens(n, rng)), False))
+    for n in (0, 1, 65535):
+        cases.append(("setenc", m_setenc([rng.choice(ENCODERS + PSEUDO) for _ in range(n)]), False))
+    cases.append(("setenc-short", m_setenc([E_RAW, E_APP], 4), False))
+    for sc in (0, 1, 2, W - 1, W, W + 1, H - 1, H, H + 1, 255):
+        cases.append(("scale", m_scale(sc & 0xFF) + m_fbur(0, 0, 0, W, H), False))
+    for L in (0, 1, (1 << 31) - 1, 1 << 31, 0xFFFFFFFF):
+        for ct in (3, 5):
+            cases.append(("ft", m_ft(ct, 0, 0, L, b"a.txt"[:min(L, 5)]), False))
+    for bpp in (8, 16, 32):
+        for sh in (bpp - 1, bpp, bpp + 1):
+            for mx in (0, 1):
+                cases.append(("spf", m_spf(bpp, bpp, 0, 1, mx, 1, 1, sh, 0, 1) + m_setenc([E_ZRLE]) + m_fbur(0, 0, 0, W, H), False))
+        cases.append(("spf", m_spf(bpp, bpp, 0, 1, (1 << (bpp // 2)) - 1, 1, 1, bpp // 2, 0, 1) + m_setenc([E_TIGHT]) + m_fbur(0, 0, 0, W, H), False))
+        cases.append(("spf", m_spf(bpp, bpp, 0, 1, (1 << (bpp // 2)), 1, 1, bpp // 2, 0, 1), False))
+    for b in (0, 1, 4, 7, 9, 15, 17, 24, 31, 33):
+        cases.append(("spf", m_spf(b, b, 0, 1, 1, 1, 1, 0, 1, 2), False))
+    cases.append(("xvp", m_xvp(0, 1), False))
+    cases.append(("xvp", m_xvp(1, 2), False))
+    if cfg["tight"] and not cfg["pw"]:
+        for L in (1, 4095, 4096, 32767, 32768, 65535):
+            nm = b"/" + b"n" * (L - 1)
+            cases += [("tight", t_list(0, nm), False), ("tight", t_dl(nm), False), ("tight", t_ul(nm), False)]
+        for L in (4093, 4094, 4095, 65535):
+            cases.append(("tight", t_mkdir(b"/" + b"n" * (L - 1)), False))
+        for L in (0, 1, 65535):
+            cases += [("tight", t_dlcancel(b"r" * L), False), ("tight", t_ulfail(b"r" * L), False)]
+        cases += [("tight", t_uldata(0, 65535, 65535, b"d" * 65535), False), ("tight", t_uldata(0, 0, 0, u32(7)), False)]
+    for nm, m, ext in cases:
+        i = s.handshake(via_tight=(nm == "tight"))
+        if ext:
+            s.send(i, m_setenc([E_RAW, E_EXTCLIP]))
+        s.tag("core-" + nm)
+        s.send(i, m + (b"" if nm.endswith("-short") else m_key(1, 0x41)))
+        if nm in ("scale", "spf"):
+            s.tick()
+    s.tick()
+    s.lines.append("end")
+    return s
+
+
+def core_trunc(cfg):
+    """every message type cut off after its first byte and one byte before its end; peers that
+    stop reading (write wait) and that hang up"""
+    import random
+    rng = random.Random(4006)
+    s = Script(rng, dict(cfg))
+    pool = valid_messages(rng, cfg) + ft_messages(rng)[:8] + (tight_messages(rng)[:8] if cfg["tight"] and not cfg["pw"] else [])
+    for nm, m in pool:
+        for k in sorted(set([1, len(m) - 1])):
+            if 0 < k < len(m):
+                i = s.handshake(via_tight=nm.startswith("t-"))
+                s.tag("core-trunc")
+                s.send(i, m[:k])
+    for m in (m_fbur(0, 0, 0, cfg["w"], cfg["h"]), m_xvp(2, 1)):
+        i = s.handshake()
+        s.lines.append("stopread %d" % i)
+        s.send(i, m)
+        i = s.handshake()
+        s.send(i, m, eof=True)
+    s.tick()
+    s.lines.append("end")
+    return s
+
+
+def core_ws(cfg):
+    """WebSocket smoke: an oversized control frame (3000-byte ping) before and after the RFB
+    handshake must close the connection, not wedge the server (C09's finding, recorded under C04)"""
+    import random
+    rng = random.Random(4007)
+    s = Script(rng, dict(cfg, pw=0, tight=0))
+    for stage in (0, 1, 2):
+        for op in (9, 10, 8):
+            i = s.conn(WS_REQ)
+            if stage >= 1:
+                s.send(i, ws_frame(rng, b"RFB 003.008\n"))
+            if stage >= 2:
+                s.send(i, ws_frame(rng, u8(1)) + ws_frame(rng, u8(1)))
+            s.tag("core-ws")
+            s.send(i, ws_frame(rng, b"p" * 3000, opcode=op))
+            s.send(i, ws_frame(rng, m_key(1, 0x41)))
+    s.tick()
+    s.lines.append("end")
+    return s
+
+
+def core_scripts():
+    out = []
+    for cfg in CORE_CFGS:
+        out.append(("core_rect_raw", core_rect(cfg, E_RAW)))
+        out.append(("core_rect_hextile", core_rect(cfg, E_HEX)))
+        out.append(("core_guards", core_guards(cfg)))
+        out.append(("core_trunc", core_trunc(cfg)))
+    out.append(("core_ws", core_ws(CORE_CFGS[0])))
+    return out
 
 
 SCENARIOS = [(sc_mix, 30), (sc_fields, 30), (sc_trunc, 12), (sc_preauth, 12), (sc_pixfmt, 12), (sc_scale, 8), (sc_block, 10),
@@ -853,6 +1021,8 @@ def run(ctx):
             if f.endswith(".ops"):
                 scripts.append(("corpus:" + f, open(os.path.join(cdir, f)).read(), {}))
         n = 600 if ctx.tier == "quick" else 15000
+        for name, s in core_scripts():
+            scripts.append((name, s.text(), s.tags))
         for name, s in gen_scripts(ctx.rng, n):
             scripts.append((name, s.text(), s.tags))
     results = common.pmap(lambda sc: run_one(ctx, h, d, sc[1], cfg_of(sc[1])), scripts)
@@ -887,7 +1057,7 @@ def run(ctx):
         if f:
             f["scenario"] = name
             fails.append(f)
-        if len(samples) < 3 and name.startswith("sc_"):
+        if len(samples) < 3 and name.startswith(("sc_", "core_")):
             samples.append({"scenario": name, "script": script.splitlines()[:40], "impl": impl[:40]})
         if len(fails) >= 6:
             break
